@@ -58,7 +58,7 @@ theorem Reaches.trans {π : HsPath} {a b c : HOut} (h1 : Reaches π a b) (h2 : R
 /-- the select at `p` times out -/
 theorem step_tick (π : HsPath) (s : HState) (p : HPos) (hp : s.pos = some p) (hr : p.rawLogin? = none)
     (hn : π.replyAt p = none) :
-    hstep s (envInput π s) = hsGot { s with c := { s.c with now := s.c.now + p.wait.2.1 } } p (-3) := by
+    hstep s (envInput π s) = hsGot { s with c := { s.c with now := s.c.now + p.wait.2.1 }, inb := [] } p (-3) := by
   obtain ⟨c, pos, inb, args, pw, dev⟩ := s
   simp only at hp
   subst hp
@@ -69,7 +69,7 @@ theorem step_tick (π : HsPath) (s : HState) (p : HPos) (hp : s.pos = some p) (h
 /-- the select at `p` delivers the path's reply -/
 theorem step_reply (π : HsPath) (s : HState) (p : HPos) (hp : s.pos = some p) (hr : p.rawLogin? = none)
     (buf : List Nat) (hn : π.replyAt p = some buf) (hl : buf.length ≤ 4095) :
-    hstep s (envInput π s) = hsGot { s with inb := buf ++ s.inb.drop buf.length } p buf.length := by
+    hstep s (envInput π s) = hsGot { s with inb := buf } p buf.length := by
   obtain ⟨c, pos, inb, args, pw, dev⟩ := s
   simp only at hp
   subst hp
@@ -143,6 +143,15 @@ def litAt (buf : List Nat) (lit : String) : Bool :=
 
 theorem inIs_eq (s : HState) (lit : String) : s.inIs lit = litAt s.inb lit := rfl
 
+/-- the bytes are at least as many as the literal's and start with it -/
+def litAtN (buf : List Nat) (lit : String) : Bool := decide (buf.length ≥ (ascii lit).length) && litAt buf lit
+
+theorem inIsN_eq (s : HState) (buf : List Nat) (h : s.inb = buf) (lit : String) : s.inIsN buf.length lit = litAtN buf lit := by
+  unfold HState.inIsN litAtN
+  rw [inIs_eq, h]
+  congr 1
+  simp
+
 /-- comparing the first `l.length` bytes one by one = comparing lists -/
 theorem all_range_eq (a l rest : List Nat) (h : a.length = l.length) :
     ((List.range l.length).all fun k => (a ++ rest).getD k 0 == l.getD k 0) = decide (a = l) := by
@@ -195,11 +204,11 @@ theorem Keep.selecttimeout {s s' : HState} (h : Keep s s') : s'.c.selecttimeout 
 
 /-- the state in which a `select` that timed out finds the thread -/
 def afterTick (s : HState) (r : Res) (p : HPos) : HState :=
-  { s with c := { r.1 with now := r.1.now + p.wait.2.1 }, pos := some p }
+  { s with c := { r.1 with now := r.1.now + p.wait.2.1 }, pos := some p, inb := [] }
 
 /-- the state after the path's reply `buf` has been received at `p` -/
 def afterReply (s : HState) (r : Res) (p : HPos) (buf : List Nat) : HState :=
-  { s with c := r.1, pos := some p, inb := buf ++ s.inb.drop buf.length }
+  { s with c := r.1, pos := some p, inb := buf }
 
 theorem keep_afterTick (s : HState) (r : Res) (p : HPos) (h : neg r.1 = neg s.c) : Keep s (afterTick s r p) := ⟨h, rfl⟩
 theorem keep_afterReply (s : HState) (r : Res) (p : HPos) (buf : List Nat) (h : neg r.1 = neg s.c) : Keep s (afterReply s r p buf) :=
@@ -255,7 +264,7 @@ theorem reach_downencTest_some (π : HsPath) (codec : Nat) (b64 : Bool) (buf : L
   simp only [downencTestHead, hrun, and_self, if_true, show (0 : Nat) < 3 by omega]
   apply park_step_reply π _ _ _ _ rfl buf (by simpa [HsPath.replyAt] using hdn) hok.2
   simp only [hsGot, downencTestGot]
-  rw [checkReply_reply (afterReply s (sendDownenctest s.c codec) (.downenc codec b64 0) buf) buf _ rfl hok.1]
+  rw [checkReply_reply (afterReply s (sendDownenctest s.c codec) (.downenc codec b64 0) buf) buf [] (List.append_nil buf).symm hok.1]
   exact Reaches.refl _
 
 /-- `handshake_downenctest(codec)` on the path: decides as `C11L.downencTest` on the path's reply -/
@@ -305,7 +314,7 @@ theorem reach_edns (π : HsPath) (hπ : π.Ok) (s : HState) (evs : List CEvent) 
     simp only [ednsHead, hrun, and_self, if_true, show (0 : Nat) < 3 by omega]
     apply park_step_reply π _ _ _ _ rfl buf (by simpa [HsPath.replyAt] using hdn) hok.2
     simp only [hsGot, ednsGot]
-    rw [checkReply_reply (afterReply s (sendDownenctest s.c (ednsCodec s.c)) (.edns 0) buf) buf _ rfl hok.1]
+    rw [checkReply_reply (afterReply s (sendDownenctest s.c (ednsCodec s.c)) (.edns 0) buf) buf [] (List.append_nil buf).symm hok.1]
     exact Reaches.refl _
 
 /-! ### handshake_upenctest -/
@@ -378,8 +387,7 @@ theorem reach_upencTest_none (π : HsPath) (p : Nat) (hdn : π.up (upPattern p) 
     exact h1
 
 /-- `handshake_upenctest(pattern p)` on the path decides as `C11L.upencTest` on the path's reply -/
-theorem reach_upencTest (π : HsPath) (hπ : π.Ok) (p : Nat) (s : HState) (evs : List CEvent) (hrun : s.c.running = true)
-    (hinb : s.inb = []) :
+theorem reach_upencTest (π : HsPath) (hπ : π.Ok) (p : Nat) (s : HState) (evs : List CEvent) (hrun : s.c.running = true) :
     ∃ s' evs', Reaches π (upencTestHead s evs p 0)
         (upencTestRet s' evs' p (upResInt (C11L.upencTest (upPattern p) (π.up (upPattern p))))) ∧ Keep s s' := by
   cases hdn : π.up (upPattern p) with
@@ -391,7 +399,7 @@ theorem reach_upencTest (π : HsPath) (hπ : π.Ok) (p : Nat) (s : HState) (evs 
     simp only [upencTestHead, hrun, and_self, if_true, show (0 : Nat) < 3 by omega]
     apply park_step_reply π _ _ _ _ rfl buf (by simpa [HsPath.replyAt] using hdn) hok.2
     simp only [hsGot]
-    rw [upencTestGot_reply _ p 0 buf (by simp [afterReply, hinb]) hok.1]
+    rw [upencTestGot_reply _ p 0 buf (by simp [afterReply]) hok.1]
     exact Reaches.refl _
 
 /-! ### handshake_upenc_autodetect -/
@@ -451,10 +459,10 @@ def upTailF (t : List Nat → C11L.UpRes) : Nat → Nat
 
 theorem upencAutodetect_eq_tail (t : List Nat → C11L.UpRes) : C11L.upencAutodetect t = upTailF t 4 := rfl
 
-theorem reach_up6 (π : HsPath) (hπ : π.Ok) (s : HState) (evs : List CEvent) (hrun : s.c.running = true) (hinb : s.inb = []) :
+theorem reach_up6 (π : HsPath) (hπ : π.Ok) (s : HState) (evs : List CEvent) (hrun : s.c.running = true) :
     ∃ s' evs', Reaches π (upencTestHead s evs 6 0)
       (upencRet s' evs' (match π.upT pat64u with | .caseSwap => 0 | .same => 2 | .differ => 0)) ∧ Keep s s' := by
-  obtain ⟨s1, e1, h1, k1⟩ := reach_upencTest π hπ 6 s evs hrun hinb
+  obtain ⟨s1, e1, h1, k1⟩ := reach_upencTest π hπ 6 s evs hrun
   refine ⟨s1, e1, ?_, k1⟩
   have : upPattern 6 = pat64u := rfl
   rw [this] at h1
@@ -464,9 +472,9 @@ theorem reach_up6 (π : HsPath) (hπ : π.Ok) (s : HState) (evs : List CEvent) (
   · rw [upencTestRet_zero_6] at h1; exact h1
   · rw [upencTestRet_one_6] at h1; exact h1
 
-theorem reach_up5 (π : HsPath) (hπ : π.Ok) (s : HState) (evs : List CEvent) (hrun : s.c.running = true) (hinb : s.inb = []) :
+theorem reach_up5 (π : HsPath) (hπ : π.Ok) (s : HState) (evs : List CEvent) (hrun : s.c.running = true) :
     ∃ s' evs', Reaches π (upencTestHead s evs 5 0) (upencRet s' evs' (C11L.upencTry64 π.upT)) ∧ Keep s s' := by
-  obtain ⟨s1, e1, h1, k1⟩ := reach_upencTest π hπ 5 s evs hrun hinb
+  obtain ⟨s1, e1, h1, k1⟩ := reach_upencTest π hπ 5 s evs hrun
   have : upPattern 5 = pat64 := rfl
   rw [this] at h1
   unfold C11L.upencTry64
@@ -475,18 +483,18 @@ theorem reach_up5 (π : HsPath) (hπ : π.Ok) (s : HState) (evs : List CEvent) (
   cases hr : C11L.upencTest pat64 (π.up pat64) <;> rw [hr] at h1 <;> simp only [upResInt] at h1
   · rw [upencTestRet_neg] at h1; exact ⟨s1, e1, h1, k1⟩
   · rw [upencTestRet_zero_5 _ _ (by rw [k1.running]; exact hrun)] at h1
-    obtain ⟨s2, e2, h2, k2⟩ := reach_up6 π hπ { s1 with inb := [] } e1 (by rw [show ({ s1 with inb := [] } : HState).c = s1.c from rfl, k1.running]; exact hrun) rfl
+    obtain ⟨s2, e2, h2, k2⟩ := reach_up6 π hπ { s1 with inb := [] } e1 (by rw [show ({ s1 with inb := [] } : HState).c = s1.c from rfl, k1.running]; exact hrun)
     exact ⟨s2, e2, h1.trans h2, k1.trans (Keep.trans ⟨rfl, rfl⟩ k2)⟩
   · rw [upencTestRet_one_5] at h1; exact ⟨s1, e1, h1, k1⟩
 
 theorem reach_upTail (π : HsPath) (hπ : π.Ok) :
-    ∀ n, n ≤ 4 → ∀ (s : HState) (evs : List CEvent), s.c.running = true → s.inb = [] →
+    ∀ n, n ≤ 4 → ∀ (s : HState) (evs : List CEvent), s.c.running = true →
       ∃ s' evs', Reaches π (upencTestHead s evs (4 - n) 0) (upencRet s' evs' (upTailF π.upT n)) ∧ Keep s s' := by
   intro n
   induction n with
   | zero =>
-    intro _ s evs hrun hinb
-    obtain ⟨s1, e1, h1, k1⟩ := reach_upencTest π hπ 4 s evs hrun hinb
+    intro _ s evs hrun
+    obtain ⟨s1, e1, h1, k1⟩ := reach_upencTest π hπ 4 s evs hrun
     have hr1 : s1.c.running = true := by rw [k1.running]; exact hrun
     have : upPattern 4 = pat128e := rfl
     rw [this] at h1
@@ -497,14 +505,14 @@ theorem reach_upTail (π : HsPath) (hπ : π.Ok) :
     cases hr : C11L.upencTest pat128e (π.up pat128e) <;> rw [hr] at h1 <;> simp only [upResInt] at h1
     · rw [upencTestRet_neg] at h1; exact ⟨s1, e1, h1, k1⟩
     · rw [upencTestRet_zero_lt5 _ _ 4 (by omega) hr1] at h1
-      obtain ⟨s2, e2, h2, k2⟩ := reach_up5 π hπ { s1 with inb := [] } e1 hr1 rfl
+      obtain ⟨s2, e2, h2, k2⟩ := reach_up5 π hπ { s1 with inb := [] } e1 hr1
       exact ⟨s2, e2, h1.trans h2, k1.trans (Keep.trans ⟨rfl, rfl⟩ k2)⟩
     · rw [upencTestRet_one_4] at h1; exact ⟨s1, e1, h1, k1⟩
   | succ n ih =>
-    intro hn s evs hrun hinb
+    intro hn s evs hrun
     have hp : 4 - (n + 1) = 3 - n := by omega
     rw [hp]
-    obtain ⟨s1, e1, h1, k1⟩ := reach_upencTest π hπ (3 - n) s evs hrun hinb
+    obtain ⟨s1, e1, h1, k1⟩ := reach_upencTest π hπ (3 - n) s evs hrun
     have hr1 : s1.c.running = true := by rw [k1.running]; exact hrun
     unfold upTailF
     have hu : π.upT (upPattern (3 - n)) = C11L.upencTest (upPattern (3 - n)) (π.up (upPattern (3 - n))) := rfl
@@ -512,24 +520,24 @@ theorem reach_upTail (π : HsPath) (hπ : π.Ok) :
     cases hr : C11L.upencTest (upPattern (3 - n)) (π.up (upPattern (3 - n))) <;> rw [hr] at h1 <;> simp only [upResInt] at h1
     · rw [upencTestRet_neg] at h1; exact ⟨s1, e1, h1, k1⟩
     · rw [upencTestRet_zero_lt5 _ _ (3 - n) (by omega) hr1] at h1
-      obtain ⟨s2, e2, h2, k2⟩ := reach_up5 π hπ { s1 with inb := [] } e1 hr1 rfl
+      obtain ⟨s2, e2, h2, k2⟩ := reach_up5 π hπ { s1 with inb := [] } e1 hr1
       exact ⟨s2, e2, h1.trans h2, k1.trans (Keep.trans ⟨rfl, rfl⟩ k2)⟩
     · rw [upencTestRet_one_lt4 _ _ (3 - n) (by omega) hr1] at h1
       have hq : 3 - n + 1 = 4 - n := by omega
       rw [hq] at h1
-      obtain ⟨s2, e2, h2, k2⟩ := ih (by omega) { s1 with inb := [] } e1 hr1 rfl
+      obtain ⟨s2, e2, h2, k2⟩ := ih (by omega) { s1 with inb := [] } e1 hr1
       exact ⟨s2, e2, h1.trans h2, k1.trans (Keep.trans ⟨rfl, rfl⟩ k2)⟩
 
 /-- `handshake_upenc_autodetect` on the path returns what `C11L.upencAutodetect` computes from the path's replies -/
-theorem reach_upencAutodetect (π : HsPath) (hπ : π.Ok) (s : HState) (evs : List CEvent) (hrun : s.c.running = true) (hinb : s.inb = []) :
+theorem reach_upencAutodetect (π : HsPath) (hπ : π.Ok) (s : HState) (evs : List CEvent) (hrun : s.c.running = true) :
     ∃ s' evs', Reaches π (upencTestHead s evs 0 0) (upencRet s' evs' (C11L.upencAutodetect π.upT)) ∧ Keep s s' := by
   rw [upencAutodetect_eq_tail]
-  exact reach_upTail π hπ 4 (Nat.le_refl _) s evs hrun hinb
+  exact reach_upTail π hπ 4 (Nat.le_refl _) s evs hrun
 
 /-! ### handshake_switch_codec -/
 
 /-- a reply that `handshake_switch_codec` / `handshake_switch_downenc` / `handshake_try_lazy` read as a refusal -/
-def isBad (buf : List Nat) : Bool := litAt buf "BADLEN" || (litAt buf "BADIP" || litAt buf "BADCODEC")
+def isBad (buf : List Nat) : Bool := litAtN buf "BADLEN" || (litAtN buf "BADIP" || litAtN buf "BADCODEC")
 
 /-- the server acknowledged the switch of the upstream codec -/
 def HsPath.switchAck (π : HsPath) (bits : Nat) : Bool :=
@@ -562,8 +570,7 @@ theorem reach_switchCodec_none (π : HsPath) (bits : Nat) (hdn : π.switchUp bit
     exact h1
 
 /-- `handshake_switch_codec(bits)` on the path: `dataenc` is switched iff the path's reply is an acknowledgement -/
-theorem reach_switchCodec (π : HsPath) (hπ : π.Ok) (bits : Nat) (s : HState) (evs : List CEvent) (hrun : s.c.running = true)
-    (hinb : s.inb = []) :
+theorem reach_switchCodec (π : HsPath) (hπ : π.Ok) (bits : Nat) (s : HState) (evs : List CEvent) (hrun : s.c.running = true) :
     ∃ s' evs', Reaches π (switchCodecHead s evs bits 0) (afterSwitchCodec s' evs') ∧
       neg s'.c = { neg s.c with dataenc := if π.switchAck bits then encOfBits bits else s.c.dataenc } ∧ s'.args = s.args := by
   unfold HsPath.switchAck
@@ -577,13 +584,13 @@ theorem reach_switchCodec (π : HsPath) (hπ : π.Ok) (bits : Nat) (s : HState) 
       (neg_sendHandshakeQuery _ _)
     have hpos : (buf.length : Int) > 0 := by omega
     have hb : (afterReply s (sendHandshakeQuery s.c [115, b32_5to8 s.c.userid, b32_5to8 (bits : Int)]) (.switchCodec bits 0) buf).inb = buf := by
-      simp [afterReply, hinb]
+      simp [afterReply]
     by_cases hbad : isBad buf = true
     · refine ⟨_, [], ?_, by simp only [hbad, Bool.not_true, Bool.false_eq_true, if_false]; exact hk.1, hk.2⟩
       simp only [switchCodecHead, hrun, and_self, if_true, show (0 : Nat) < 5 by omega]
       apply park_step_reply π _ _ _ _ rfl buf (by simpa [HsPath.replyAt] using hdn) hok.2
-      simp only [hsGot, switchCodecGot, hpos, if_true, inIs_eq, hb]
-      have : (litAt buf "BADLEN" = true ∨ litAt buf "BADIP" = true ∨ litAt buf "BADCODEC" = true) := by
+      simp only [hsGot, switchCodecGot, hpos, if_true, inIsN_eq _ buf hb]
+      have : (litAtN buf "BADLEN" = true ∨ litAtN buf "BADIP" = true ∨ litAtN buf "BADCODEC" = true) := by
         simpa [isBad] using hbad
       simp only [this, if_true]
       exact Reaches.refl _
@@ -592,8 +599,8 @@ theorem reach_switchCodec (π : HsPath) (hπ : π.Ok) (bits : Nat) (s : HState) 
                 c := { (sendHandshakeQuery s.c [115, b32_5to8 s.c.userid, b32_5to8 (bits : Int)]).1 with dataenc := encOfBits bits } }, [], ?_, ?_, hk.2⟩
       · simp only [switchCodecHead, hrun, and_self, if_true, show (0 : Nat) < 5 by omega]
         apply park_step_reply π _ _ _ _ rfl buf (by simpa [HsPath.replyAt] using hdn) hok.2
-        simp only [hsGot, switchCodecGot, hpos, if_true, inIs_eq, hb]
-        have : ¬ (litAt buf "BADLEN" = true ∨ litAt buf "BADIP" = true ∨ litAt buf "BADCODEC" = true) := by
+        simp only [hsGot, switchCodecGot, hpos, if_true, inIsN_eq _ buf hb]
+        have : ¬ (litAtN buf "BADLEN" = true ∨ litAtN buf "BADIP" = true ∨ litAtN buf "BADCODEC" = true) := by
           simpa [isBad] using hbad'
         simp only [this, if_false]
         exact Reaches.refl _
@@ -737,7 +744,7 @@ theorem reach_downencAutodetect (π : HsPath) (hπ : π.Ok) (s : HState) (evs : 
 /-- the server answered "Lazy" (and no refusal) -/
 def HsPath.lazyAck (π : HsPath) : Bool :=
   match π.lazy with
-  | some buf => !isBad buf && litAt buf "Lazy"
+  | some buf => !isBad buf && litAtN buf "Lazy"
   | none => false
 
 /-- what the (up to three) tries for fragment size `n` leave behind when every try gets the reply `reply`:
@@ -746,11 +753,14 @@ def fragRes (n : Nat) (reply : Option (List Nat)) : C11L.ProbeRes :=
   match reply with
   | none => .bad
   | some buf =>
-    if buf.length ≥ 5 ∧ litAt buf "BADIP" = true then .bad
+    if buf.length < 2 then .bad
+    else if buf.length ≥ 5 ∧ litAt buf "BADIP" = true then .bad
     else if buf.getD 0 0 * 256 + buf.getD 1 0 ≠ n then .bad
     else if buf.length ≠ n then .bad
+    else if buf.length < 3 then .ok
     else if buf.getD 2 0 ≠ 107 then .fatal
-    else if (List.range (n - 3)).all fun j => buf.getD (3 + j) 0 == (buf.getD 3 0 + 107 * j) % 256 then .ok
+    else if (List.range (n - 3)).all fun j =>
+        buf.getD (3 + j) 0 == ((if buf.length > 3 then buf.getD 3 0 else 0) + 107 * j) % 256 then .ok
     else .bad
 
 def HsPath.probes (π : HsPath) : C11L.HsProbes :=
@@ -826,7 +836,7 @@ theorem reach_codecs (π : HsPath) (hπ : π.Ok) (s : HState) (evs : List CEvent
   have ra : sa.c.running = true := by have := congrArg Neg.running ka.1; simpa [neg, hrun] using this
   rw [hsa] at h1
   -- upstream codec detection
-  obtain ⟨s2, e2, h2, k2⟩ := reach_upencAutodetect π hπ sa e1 ra ea0
+  obtain ⟨s2, e2, h2, k2⟩ := reach_upencAutodetect π hπ sa e1 ra
   have r2 := run k2 ra
   -- switch
   obtain ⟨s3, e3, h3, n3, a3⟩ : ∃ s3 e3, Reaches π (upencRet s2 e2 (C11L.upencAutodetect π.upT)) (afterSwitchCodec s3 e3) ∧
@@ -838,7 +848,7 @@ theorem reach_codecs (π : HsPath) (hπ : π.Ok) (s : HState) (evs : List CEvent
         ∃ s3 e3, Reaches π (switchCodecHead { s2 with inb := [] } e2 bits 0) (afterSwitchCodec s3 e3) ∧
           neg s3.c = { neg s2.c with dataenc := encOfBits (if π.switchAck bits then bits else 5) } ∧ s3.args = s2.args := by
       intro bits hb
-      obtain ⟨s3, e3, h3, n3, a3⟩ := reach_switchCodec π hπ bits { s2 with inb := [] } e2 r2 rfl
+      obtain ⟨s3, e3, h3, n3, a3⟩ := reach_switchCodec π hπ bits { s2 with inb := [] } e2 r2
       refine ⟨s3, e3, h3, ?_, a3⟩
       rw [n3]
       show ({ neg s2.c with dataenc := _ } : Neg) = _
@@ -980,26 +990,25 @@ theorem neg_lazyRevert (s : HState) : neg (lazyRevert s).c = { neg s.c with lazy
 /-- all five tries end without a usable reply (no reply at all, or five times the same reply that is neither a refusal
 nor "Lazy"): fall back to legacy mode -/
 theorem reach_lazy_fail (π : HsPath) (hcase : π.lazy = none ∨ ∃ buf, π.lazy = some buf ∧ 0 < buf.length ∧ buf.length ≤ 4095 ∧
-      isBad buf = false ∧ litAt buf "Lazy" = false) :
+      isBad buf = false ∧ litAtN buf "Lazy" = false) :
     ∀ k i, i + k = 5 → ∀ (s : HState) (evs : List CEvent), s.c.running = true →
-      (∀ buf, π.lazy = some buf → s.inb.drop buf.length = []) →
       ∃ s' evs', Reaches π (lazyHead s evs i) (afterLazy (lazyRevert s') evs') ∧ Keep s s' := by
   intro k
   induction k with
   | zero =>
-    intro i hi s evs hrun _
+    intro i hi s evs hrun
     have : i = 5 := by omega
     subst this
     refine ⟨s, evs, ?_, Keep.refl _⟩
     simp [lazyHead, hrun]
     exact Reaches.refl _
   | succ k ih =>
-    intro i hi s evs hrun hinb
+    intro i hi s evs hrun
     have hlt : i < 5 := by omega
     rcases hcase with hdn | ⟨buf, hdn, hp, hl, hb, hz⟩
     · have hk := keep_afterTick s (sendLazySwitch s.c) (.lazy i) (neg_sendLazySwitch _)
       obtain ⟨s', evs', h1, h2⟩ := ih (i + 1) (by omega) (afterTick s (sendLazySwitch s.c) (.lazy i)) []
-        (by rw [hk.running]; exact hrun) (by intro b hb; rw [hdn] at hb; cases hb)
+        (by rw [hk.running]; exact hrun)
       refine ⟨s', evs', ?_, hk.trans h2⟩
       simp only [lazyHead, hrun, hlt, and_self, if_true]
       apply park_step_tick π _ _ _ _ rfl (by simpa [HsPath.replyAt] using hdn)
@@ -1007,31 +1016,30 @@ theorem reach_lazy_fail (π : HsPath) (hcase : π.lazy = none ∨ ∃ buf, π.la
       exact h1
     · have hk := keep_afterReply s (sendLazySwitch s.c) (.lazy i) buf (neg_sendLazySwitch _)
       have hb' : (afterReply s (sendLazySwitch s.c) (.lazy i) buf).inb = buf := by
-        simp [afterReply, hinb buf hdn]
+        simp [afterReply]
       obtain ⟨s', evs', h1, h2⟩ := ih (i + 1) (by omega) (afterReply s (sendLazySwitch s.c) (.lazy i) buf) []
         (by rw [hk.running]; exact hrun)
-        (by intro b hb; rw [hdn] at hb; injection hb with hb; subst hb; rw [hb']; simp)
       refine ⟨s', evs', ?_, hk.trans h2⟩
       simp only [lazyHead, hrun, hlt, and_self, if_true]
       apply park_step_reply π _ _ _ _ rfl buf (by simpa [HsPath.replyAt] using hdn) hl
       have hpos : (buf.length : Int) > 0 := by omega
-      have hnb : ¬ (litAt buf "BADLEN" = true ∨ litAt buf "BADIP" = true ∨ litAt buf "BADCODEC" = true) := by
+      have hnb : ¬ (litAtN buf "BADLEN" = true ∨ litAtN buf "BADIP" = true ∨ litAtN buf "BADCODEC" = true) := by
         simpa [isBad] using hb
-      simp only [hsGot, lazyGot, hpos, if_true, inIs_eq, hb', hnb, if_false, hz, Bool.false_eq_true]
+      simp only [hsGot, lazyGot, hpos, if_true, inIsN_eq _ buf hb', hnb, if_false, hz, Bool.false_eq_true]
       exact h1
 
 /-- `handshake_try_lazy` on the path: lazy mode iff the path's reply is "Lazy"; otherwise legacy mode with a 1 s interval -/
-theorem reach_lazy (π : HsPath) (hπ : π.Ok) (s : HState) (evs : List CEvent) (hrun : s.c.running = true) (hinb : s.inb = []) :
+theorem reach_lazy (π : HsPath) (hπ : π.Ok) (s : HState) (evs : List CEvent) (hrun : s.c.running = true) :
     ∃ s' evs', Reaches π (lazyHead s evs 0) (afterLazy s' evs') ∧
       neg s'.c = { neg s.c with lazymode := π.lazyAck, selecttimeout := if π.lazyAck then s.c.selecttimeout else 1 } ∧
       s'.args = s.args := by
   have fail : (π.lazy = none ∨ ∃ buf, π.lazy = some buf ∧ 0 < buf.length ∧ buf.length ≤ 4095 ∧ isBad buf = false ∧
-      litAt buf "Lazy" = false) → π.lazyAck = false →
+      litAtN buf "Lazy" = false) → π.lazyAck = false →
       ∃ s' evs', Reaches π (lazyHead s evs 0) (afterLazy s' evs') ∧
         neg s'.c = { neg s.c with lazymode := π.lazyAck, selecttimeout := if π.lazyAck then s.c.selecttimeout else 1 } ∧
         s'.args = s.args := by
     intro hc hack
-    obtain ⟨s', evs', h1, h2⟩ := reach_lazy_fail π hc 5 0 rfl s evs hrun (by intro b _; rw [hinb]; simp)
+    obtain ⟨s', evs', h1, h2⟩ := reach_lazy_fail π hc 5 0 rfl s evs hrun
     refine ⟨lazyRevert s', evs', h1, ?_, h2.2⟩
     rw [neg_lazyRevert, h2.1, hack]
     simp
@@ -1044,32 +1052,32 @@ theorem reach_lazy (π : HsPath) (hπ : π.Ok) (s : HState) (evs : List CEvent) 
   | some buf =>
     have hok := hπ (.lazy 0) buf (by simpa [HsPath.replyAt] using hdn)
     have hk := keep_afterReply s (sendLazySwitch s.c) (.lazy 0) buf (neg_sendLazySwitch _)
-    have hb' : (afterReply s (sendLazySwitch s.c) (.lazy 0) buf).inb = buf := by simp [afterReply, hinb]
+    have hb' : (afterReply s (sendLazySwitch s.c) (.lazy 0) buf).inb = buf := by simp [afterReply]
     have hpos : (buf.length : Int) > 0 := by omega
     by_cases hbad : isBad buf = true
     · refine ⟨lazyRevert (afterReply s (sendLazySwitch s.c) (.lazy 0) buf), [], ?_, ?_, hk.2⟩
       · simp only [lazyHead, hrun, and_self, if_true, show (0 : Nat) < 5 by omega]
         apply park_step_reply π _ _ _ _ rfl buf (by simpa [HsPath.replyAt] using hdn) hok.2
-        have : (litAt buf "BADLEN" = true ∨ litAt buf "BADIP" = true ∨ litAt buf "BADCODEC" = true) := by
+        have : (litAtN buf "BADLEN" = true ∨ litAtN buf "BADIP" = true ∨ litAtN buf "BADCODEC" = true) := by
           simpa [isBad] using hbad
-        simp only [hsGot, lazyGot, hpos, if_true, inIs_eq, hb', this]
+        simp only [hsGot, lazyGot, hpos, if_true, inIsN_eq _ buf hb', this]
         exact Reaches.refl _
       · rw [neg_lazyRevert, hk.1]; simp [hbad]
     · have hbad' : isBad buf = false := by simpa using hbad
-      have hnb : ¬ (litAt buf "BADLEN" = true ∨ litAt buf "BADIP" = true ∨ litAt buf "BADCODEC" = true) := by
+      have hnb : ¬ (litAtN buf "BADLEN" = true ∨ litAtN buf "BADIP" = true ∨ litAtN buf "BADCODEC" = true) := by
         simpa [isBad] using hbad'
-      by_cases hz : litAt buf "Lazy" = true
+      by_cases hz : litAtN buf "Lazy" = true
       · refine ⟨{ (afterReply s (sendLazySwitch s.c) (.lazy 0) buf) with
                   c := { (sendLazySwitch s.c).1 with lazymode := true } }, [], ?_, ?_, hk.2⟩
         · simp only [lazyHead, hrun, and_self, if_true, show (0 : Nat) < 5 by omega]
           apply park_step_reply π _ _ _ _ rfl buf (by simpa [HsPath.replyAt] using hdn) hok.2
-          simp only [hsGot, lazyGot, hpos, if_true, inIs_eq, hb', hnb, if_false, hz]
+          simp only [hsGot, lazyGot, hpos, if_true, inIsN_eq _ buf hb', hnb, if_false, hz]
           exact Reaches.refl _
         · have := hk.1
           simp only [neg, afterReply] at this ⊢
           injection this with a b c d e f g
           simp [hbad', hz, a, b, c, e, f, g]
-      · have hz' : litAt buf "Lazy" = false := by simpa using hz
+      · have hz' : litAtN buf "Lazy" = false := by simpa using hz
         have h := fail (Or.inr ⟨buf, hdn, hok.1, hok.2, hbad', hz'⟩) (by simp [hdn, hbad', hz'])
         rw [hdn] at h
         exact h
@@ -1089,16 +1097,62 @@ theorem all_range_congr (n : Nat) (f g : Nat → Bool) (h : ∀ k, k < n → f k
 
 /-- `fragsize_check` on the bytes of one reply: new `max_fragsize`, and whether the `for` loop is left -/
 def fragCk (buf : List Nat) (proposed : Nat) (max : Int) : Int × Bool :=
-  if buf.length ≥ 5 ∧ litAt buf "BADIP" = true then (max, false)
+  if buf.length < 2 then (max, false)
+  else if buf.length ≥ 5 ∧ litAt buf "BADIP" = true then (max, false)
   else if buf.getD 0 0 * 256 + buf.getD 1 0 ≠ proposed then (max, false)
   else if buf.length ≠ proposed then (max, true)
+  else if buf.length < 3 then ((proposed : Int), true)
   else if buf.getD 2 0 ≠ 107 then (-1, true)
-  else if (List.range (proposed - 3)).all fun j => buf.getD (3 + j) 0 == (buf.getD 3 0 + 107 * j) % 256 then ((proposed : Int), true)
+  else if (List.range (proposed - 3)).all fun j =>
+      buf.getD (3 + j) 0 == ((if buf.length > 3 then buf.getD 3 0 else 0) + 107 * j) % 256 then ((proposed : Int), true)
   else (max, true)
 
-/-- a reply of at least three bytes is judged by its own bytes, whatever earlier replies left in `in[]` -/
-theorem fragsizeCheck_reply (s : HState) (buf tail : List Nat) (hi : s.inb = buf ++ tail) (h3 : 3 ≤ buf.length)
-    (pr : Nat) (m : Int) : fragsizeCheck s buf.length pr m = fragCk buf pr m := by
+/-- `fragsize_check` judges a reply by its own bytes -/
+theorem fragsizeCheck_reply (s : HState) (buf : List Nat) (hi : s.inb = buf) (pr : Nat) (m : Int) :
+    fragsizeCheck s buf.length pr m = fragCk buf pr m := by
+  unfold fragsizeCheck fragCk
+  simp only [HState.inAt, inIs_eq, hi]
+  by_cases c0 : buf.length < 2
+  · have c0i : (buf.length : Int) < 2 := by omega
+    rw [if_pos c0i, if_pos c0]
+  · have c0i : ¬ (buf.length : Int) < 2 := by omega
+    rw [if_neg c0i, if_neg c0]
+    by_cases c1 : buf.length ≥ 5 ∧ litAt buf "BADIP" = true
+    · have c1' : ((buf.length : Int) ≥ 5 ∧ litAt buf "BADIP" = true) := ⟨by omega, c1.2⟩
+      rw [if_pos c1', if_pos c1]
+    · have c1' : ¬ ((buf.length : Int) ≥ 5 ∧ litAt buf "BADIP" = true) := fun ⟨a, b⟩ => c1 ⟨by omega, b⟩
+      rw [if_neg c1', if_neg c1]
+      by_cases c2 : buf.getD 0 0 * 256 + buf.getD 1 0 ≠ pr
+      · rw [if_pos c2, if_pos c2]
+      · rw [if_neg c2, if_neg c2]
+        have ha : buf.getD 0 0 * 256 + buf.getD 1 0 = pr := Decidable.of_not_not c2
+        by_cases c3 : buf.length = pr
+        · have c3i : ¬ ((buf.length : Int) ≠ (pr : Int)) := by omega
+          have c3n : ¬ buf.length ≠ pr := by omega
+          rw [if_neg c3i, if_neg c3n]
+          by_cases c5 : buf.length < 3
+          · have c5i : (buf.length : Int) < 3 := by omega
+            rw [if_pos c5i, if_pos c5, ha]
+          · have c5i : ¬ (buf.length : Int) < 3 := by omega
+            rw [if_neg c5i, if_neg c5]
+            by_cases c4 : buf.getD 2 0 ≠ 107
+            · rw [if_pos c4, if_pos c4]
+            · rw [if_neg c4, if_neg c4]
+              have hv : (if (buf.length : Int) > 3 then buf.getD 3 0 else 0) = (if buf.length > 3 then buf.getD 3 0 else 0) := by
+                by_cases h : buf.length > 3
+                · have : (buf.length : Int) > 3 := by omega
+                  rw [if_pos this, if_pos h]
+                · have : ¬ (buf.length : Int) > 3 := by omega
+                  rw [if_neg this, if_neg h]
+              rw [hv, ha]
+        · have c3i : (buf.length : Int) ≠ (pr : Int) := by omega
+          have c3n : buf.length ≠ pr := c3
+          rw [if_pos c3i, if_pos c3n]
+
+/-- the length guards of `fragsize_check` suffice: whatever lies in `in[]` BEHIND the reply (`junk`: what earlier replies or
+the stack left there) is not looked at -/
+theorem fragsizeCheck_junk (s : HState) (buf junk : List Nat) (hi : s.inb = buf ++ junk) (pr : Nat) (m : Int) :
+    fragsizeCheck s buf.length pr m = fragCk buf pr m := by
   unfold fragsizeCheck fragCk
   have g : ∀ k, k < buf.length → s.inAt k = buf.getD k 0 := by
     intro k hk; unfold HState.inAt; rw [hi]; exact getD_append_lt _ _ _ hk
@@ -1109,35 +1163,67 @@ theorem fragsizeCheck_reply (s : HState) (buf tail : List Nat) (hi : s.inb = buf
     intro k hk
     have : (ascii "BADIP").length = 5 := by decide
     rw [g k (by omega)]
-  have hall : buf.length = pr →
-      ((List.range (pr - 3)).all fun j => s.inAt (3 + j) == (s.inAt 3 + 107 * j) % 256) =
-      ((List.range (pr - 3)).all fun j => buf.getD (3 + j) 0 == (buf.getD 3 0 + 107 * j) % 256) := by
-    intro hl
+  simp only
+  by_cases c0 : buf.length < 2
+  · have c0i : (buf.length : Int) < 2 := by omega
+    rw [if_pos c0i, if_pos c0]
+  · have c0i : ¬ (buf.length : Int) < 2 := by omega
+    rw [if_neg c0i, if_neg c0, g 0 (by omega), g 1 (by omega)]
+    by_cases c1 : buf.length ≥ 5 ∧ litAt buf "BADIP" = true
+    · have c1' : ((buf.length : Int) ≥ 5 ∧ s.inIs "BADIP" = true) := ⟨by omega, by rw [hbadip c1.1]; exact c1.2⟩
+      rw [if_pos c1', if_pos c1]
+    · have c1' : ¬ ((buf.length : Int) ≥ 5 ∧ s.inIs "BADIP" = true) :=
+        fun ⟨a, b⟩ => c1 ⟨by omega, by rw [← hbadip (by omega)]; exact b⟩
+      rw [if_neg c1', if_neg c1]
+      by_cases c2 : buf.getD 0 0 * 256 + buf.getD 1 0 ≠ pr
+      · rw [if_pos c2, if_pos c2]
+      · rw [if_neg c2, if_neg c2]
+        have ha : buf.getD 0 0 * 256 + buf.getD 1 0 = pr := Decidable.of_not_not c2
+        by_cases c3 : buf.length = pr
+        · have c3i : ¬ ((buf.length : Int) ≠ (pr : Int)) := by omega
+          have c3n : ¬ buf.length ≠ pr := by omega
+          rw [if_neg c3i, if_neg c3n]
+          by_cases c5 : buf.length < 3
+          · have c5i : (buf.length : Int) < 3 := by omega
+            rw [if_pos c5i, if_pos c5, ha]
+          · have c5i : ¬ (buf.length : Int) < 3 := by omega
+            rw [if_neg c5i, if_neg c5, g 2 (by omega)]
+            by_cases c4 : buf.getD 2 0 ≠ 107
+            · rw [if_pos c4, if_pos c4]
+            · rw [if_neg c4, if_neg c4]
+              have hv : (if (buf.length : Int) > 3 then s.inAt 3 else 0) = (if buf.length > 3 then buf.getD 3 0 else 0) := by
+                by_cases h : buf.length > 3
+                · have : (buf.length : Int) > 3 := by omega
+                  rw [if_pos this, if_pos h, g 3 h]
+                · have : ¬ (buf.length : Int) > 3 := by omega
+                  rw [if_neg this, if_neg h]
+              have hall : ((List.range (pr - 3)).all fun j =>
+                    s.inAt (3 + j) == ((if (buf.length : Int) > 3 then s.inAt 3 else 0) + 107 * j) % 256) =
+                  ((List.range (pr - 3)).all fun j =>
+                    buf.getD (3 + j) 0 == ((if buf.length > 3 then buf.getD 3 0 else 0) + 107 * j) % 256) := by
+                rw [hv]
+                apply all_range_congr
+                intro k hk
+                rw [g (3 + k) (by omega)]
+              rw [hall, ha]
+        · have c3i : (buf.length : Int) ≠ (pr : Int) := by omega
+          have c3n : buf.length ≠ pr := c3
+          rw [if_pos c3i, if_pos c3n]
+
+/-- … and so do the guards of the four switch handshakes -/
+theorem inIsN_junk (s : HState) (buf junk : List Nat) (hi : s.inb = buf ++ junk) (lit : String) :
+    s.inIsN buf.length lit = litAtN buf lit := by
+  unfold HState.inIsN litAtN
+  by_cases h : buf.length ≥ (ascii lit).length
+  · have hi' : (buf.length : Int) ≥ ((ascii lit).length : Int) := by omega
+    simp only [hi', h, decide_true, Bool.true_and]
+    unfold HState.inIs litAt
     apply all_range_congr
     intro k hk
-    rw [g (3 + k) (by omega), g 3 (by omega)]
-  simp only [g 0 (by omega), g 1 (by omega), g 2 (by omega)]
-  by_cases c1 : buf.length ≥ 5 ∧ litAt buf "BADIP" = true
-  · have c1' : ((buf.length : Int) ≥ 5 ∧ s.inIs "BADIP" = true) := ⟨by omega, by rw [hbadip c1.1]; exact c1.2⟩
-    simp only [c1', c1, and_self, if_true]
-  · have c1' : ¬ ((buf.length : Int) ≥ 5 ∧ s.inIs "BADIP" = true) := by
-      intro ⟨a, b⟩
-      exact c1 ⟨by omega, by rw [← hbadip (by omega)]; exact b⟩
-    simp only [c1', c1, if_false]
-    by_cases c2 : buf.getD 0 0 * 256 + buf.getD 1 0 ≠ pr
-    · rw [if_pos c2, if_pos c2]
-    · rw [if_neg c2, if_neg c2]
-      have ha : buf.getD 0 0 * 256 + buf.getD 1 0 = pr := Decidable.of_not_not c2
-      by_cases c3 : buf.length = pr
-      · have c3i : ¬ ((buf.length : Int) ≠ (pr : Int)) := by omega
-        have c3n : ¬ buf.length ≠ pr := by omega
-        rw [if_neg c3i, if_neg c3n]
-        by_cases c4 : buf.getD 2 0 ≠ 107
-        · rw [if_pos c4, if_pos c4]
-        · rw [if_neg c4, if_neg c4, hall c3, ha]
-      · have c3i : (buf.length : Int) ≠ (pr : Int) := by omega
-        have c3n : buf.length ≠ pr := c3
-        rw [if_pos c3i, if_pos c3n]
+    unfold HState.inAt
+    rw [hi, getD_append_lt _ _ _ (by omega)]
+  · have hi' : ¬ (buf.length : Int) ≥ ((ascii lit).length : Int) := by omega
+    simp [hi', h]
 
 /-- `max_fragsize` after the tries for size `pr` on the path -/
 def probeMaxOf (π : HsPath) (pr : Nat) (m : Int) : Int :=
@@ -1150,46 +1236,64 @@ theorem fragCk_fst (buf : List Nat) (pr : Nat) (m : Int) :
     (fragCk buf pr m).1 = (match fragRes pr (some buf) with | .ok => (pr : Int) | .bad => m | .fatal => -1) := by
   unfold fragCk fragRes
   simp only
-  by_cases c1 : buf.length ≥ 5 ∧ litAt buf "BADIP" = true
-  · rw [if_pos c1, if_pos c1]
-  · rw [if_neg c1, if_neg c1]
-    by_cases c2 : buf.getD 0 0 * 256 + buf.getD 1 0 ≠ pr
-    · rw [if_pos c2, if_pos c2]
-    · rw [if_neg c2, if_neg c2]
-      by_cases c3 : buf.length ≠ pr
-      · rw [if_pos c3, if_pos c3]
-      · rw [if_neg c3, if_neg c3]
-        by_cases c4 : buf.getD 2 0 ≠ 107
-        · rw [if_pos c4, if_pos c4]
-        · rw [if_neg c4, if_neg c4]
-          split <;> rfl
+  by_cases c0 : buf.length < 2
+  · rw [if_pos c0, if_pos c0]
+  · rw [if_neg c0, if_neg c0]
+    by_cases c1 : buf.length ≥ 5 ∧ litAt buf "BADIP" = true
+    · rw [if_pos c1, if_pos c1]
+    · rw [if_neg c1, if_neg c1]
+      by_cases c2 : buf.getD 0 0 * 256 + buf.getD 1 0 ≠ pr
+      · rw [if_pos c2, if_pos c2]
+      · rw [if_neg c2, if_neg c2]
+        by_cases c3 : buf.length ≠ pr
+        · rw [if_pos c3, if_pos c3]
+        · rw [if_neg c3, if_neg c3]
+          by_cases c5 : buf.length < 3
+          · rw [if_pos c5, if_pos c5]
+          · rw [if_neg c5, if_neg c5]
+            by_cases c4 : buf.getD 2 0 ≠ 107
+            · rw [if_pos c4, if_pos c4]
+            · rw [if_neg c4, if_neg c4]
+              by_cases c6 : ((List.range (pr - 3)).all fun j =>
+                  buf.getD (3 + j) 0 == ((if buf.length > 3 then buf.getD 3 0 else 0) + 107 * j) % 256) = true
+              · rw [if_pos c6, if_pos c6]
+              · rw [if_neg c6, if_neg c6]
 
 /-- a reply after which `fragsize_check` says "keep checking" leaves `max_fragsize` alone and counts as `.bad` -/
 theorem fragCk_retry (buf : List Nat) (pr : Nat) (m : Int) (h : (fragCk buf pr m).2 = false) :
     fragCk buf pr m = (m, false) ∧ fragRes pr (some buf) = .bad := by
   unfold fragCk fragRes at *
   simp only at *
-  by_cases c1 : buf.length ≥ 5 ∧ litAt buf "BADIP" = true
-  · rw [if_pos c1]; rw [if_pos c1]; exact ⟨rfl, rfl⟩
-  · rw [if_neg c1] at h ⊢; rw [if_neg c1]
-    by_cases c2 : buf.getD 0 0 * 256 + buf.getD 1 0 ≠ pr
-    · rw [if_pos c2]; rw [if_pos c2]; exact ⟨rfl, rfl⟩
-    · rw [if_neg c2] at h
-      exfalso
-      by_cases c3 : buf.length ≠ pr
-      · rw [if_pos c3] at h; cases h
-      · rw [if_neg c3] at h
-        by_cases c4 : buf.getD 2 0 ≠ 107
-        · rw [if_pos c4] at h; cases h
-        · rw [if_neg c4] at h
-          split at h <;> cases h
+  by_cases c0 : buf.length < 2
+  · rw [if_pos c0]; rw [if_pos c0]; exact ⟨rfl, rfl⟩
+  · rw [if_neg c0] at h ⊢; rw [if_neg c0]
+    by_cases c1 : buf.length ≥ 5 ∧ litAt buf "BADIP" = true
+    · rw [if_pos c1]; rw [if_pos c1]; exact ⟨rfl, rfl⟩
+    · rw [if_neg c1] at h ⊢; rw [if_neg c1]
+      by_cases c2 : buf.getD 0 0 * 256 + buf.getD 1 0 ≠ pr
+      · rw [if_pos c2]; rw [if_pos c2]; exact ⟨rfl, rfl⟩
+      · rw [if_neg c2] at h
+        exfalso
+        by_cases c3 : buf.length ≠ pr
+        · rw [if_pos c3] at h; cases h
+        · rw [if_neg c3] at h
+          by_cases c5 : buf.length < 3
+          · rw [if_pos c5] at h; cases h
+          · rw [if_neg c5] at h
+            by_cases c4 : buf.getD 2 0 ≠ 107
+            · rw [if_pos c4] at h; cases h
+            · rw [if_neg c4] at h
+              by_cases c6 : ((List.range (pr - 3)).all fun j =>
+                  buf.getD (3 + j) 0 == ((if buf.length > 3 then buf.getD 3 0 else 0) + 107 * j) % 256) = true
+              · rw [if_pos c6] at h; cases h
+              · rw [if_neg c6] at h; cases h
 
 theorem fragHead_lt (s : HState) (evs : List CEvent) (pr rg : Nat) (m : Int) (i : Nat) (hrun : s.c.running = true) (hi : i < 3) :
     fragHead s evs pr rg m i = s.park (sendFragsizeProbe s.c pr) evs (.frag pr rg m i) := by
   simp [fragHead, hrun, hi]
 
 theorem reach_fragInner_retry (π : HsPath) (pr rg : Nat) (m : Int)
-    (hc : π.frag pr = none ∨ ∃ buf, π.frag pr = some buf ∧ 3 ≤ buf.length ∧ buf.length ≤ 4095 ∧ fragCk buf pr m = (m, false)) :
+    (hc : π.frag pr = none ∨ ∃ buf, π.frag pr = some buf ∧ 0 < buf.length ∧ buf.length ≤ 4095 ∧ fragCk buf pr m = (m, false)) :
     ∀ k i, i + k = 3 → ∀ (s : HState) (evs : List CEvent), s.c.running = true →
       ∃ s' evs', Reaches π (fragHead s evs pr rg m i) (fragHead s' evs' pr rg m 3) ∧ Keep s s' := by
   intro k
@@ -1203,7 +1307,7 @@ theorem reach_fragInner_retry (π : HsPath) (pr rg : Nat) (m : Int)
     intro i hi s evs hrun
     have hlt : i < 3 := by omega
     rw [fragHead_lt s evs pr rg m i hrun hlt]
-    rcases hc with hdn | ⟨buf, hdn, h3, hl, hck⟩
+    rcases hc with hdn | ⟨buf, hdn, hp0, hl, hck⟩
     · have hk := keep_afterTick s (sendFragsizeProbe s.c pr) (.frag pr rg m i) (neg_sendFragsizeProbe _ _)
       obtain ⟨s', evs', h1, h2⟩ := ih (i + 1) (by omega) (afterTick s (sendFragsizeProbe s.c pr) (.frag pr rg m i)) []
         (by rw [hk.running]; exact hrun)
@@ -1218,12 +1322,12 @@ theorem reach_fragInner_retry (π : HsPath) (pr rg : Nat) (m : Int)
       apply park_step_reply π _ _ _ _ rfl buf (by simpa [HsPath.replyAt] using hdn) hl
       have hpos : (buf.length : Int) > 0 := by omega
       simp only [hsGot, fragGot, hpos, if_true]
-      rw [fragsizeCheck_reply _ buf _ rfl h3, hck]
+      rw [fragsizeCheck_reply _ buf rfl, hck]
       simp only [Bool.false_eq_true, if_false]
       exact h1
 
 /-- the `for` loop of `handshake_autoprobe_fragsize` for one proposed size, on the path -/
-theorem reach_fragInner (π : HsPath) (hπ : π.Ok) (h3 : ∀ n buf, π.frag n = some buf → 3 ≤ buf.length) (pr rg : Nat) (m : Int)
+theorem reach_fragInner (π : HsPath) (hπ : π.Ok) (pr rg : Nat) (m : Int)
     (s : HState) (evs : List CEvent) (hrun : s.c.running = true) :
     ∃ s' evs', Reaches π (fragHead s evs pr rg m 0) (fragHead s' evs' pr rg (probeMaxOf π pr m) 3) ∧ Keep s s' := by
   unfold probeMaxOf
@@ -1231,12 +1335,11 @@ theorem reach_fragInner (π : HsPath) (hπ : π.Ok) (h3 : ∀ n buf, π.frag n =
   | none => exact reach_fragInner_retry π pr rg m (Or.inl hdn) 3 0 rfl s evs hrun
   | some buf =>
     have hok := hπ (.frag pr rg m 0) buf (by simpa [HsPath.replyAt] using hdn)
-    have hb3 := h3 pr buf hdn
     cases hbrk : (fragCk buf pr m).2 with
     | false =>
       obtain ⟨hck, hres⟩ := fragCk_retry buf pr m hbrk
       rw [hres]
-      exact reach_fragInner_retry π pr rg m (Or.inr ⟨buf, hdn, hb3, hok.2, hck⟩) 3 0 rfl s evs hrun
+      exact reach_fragInner_retry π pr rg m (Or.inr ⟨buf, hdn, hok.1, hok.2, hck⟩) 3 0 rfl s evs hrun
     | true =>
       rw [← fragCk_fst]
       have hk := keep_afterReply s (sendFragsizeProbe s.c pr) (.frag pr rg m 0) buf (neg_sendFragsizeProbe _ _)
@@ -1245,7 +1348,7 @@ theorem reach_fragInner (π : HsPath) (hπ : π.Ok) (h3 : ∀ n buf, π.frag n =
       apply park_step_reply π _ _ _ _ rfl buf (by simpa [HsPath.replyAt] using hdn) hok.2
       have hpos : (buf.length : Int) > 0 := by omega
       simp only [hsGot, fragGot, hpos, if_true]
-      rw [fragsizeCheck_reply _ buf _ rfl hb3, hbrk]
+      rw [fragsizeCheck_reply _ buf rfl, hbrk]
       simp only [if_true]
       exact Reaches.refl _
 
@@ -1260,7 +1363,7 @@ theorem fragHead_three (s : HState) (evs : List CEvent) (pr rg : Nat) (m : Int) 
   simp [fragHead, hrun]
 
 /-- the `while` loop of `handshake_autoprobe_fragsize` on the path computes `C11L.fragLoop` -/
-theorem reach_fragLoop (π : HsPath) (hπ : π.Ok) (h3 : ∀ n buf, π.frag n = some buf → 3 ≤ buf.length) :
+theorem reach_fragLoop (π : HsPath) (hπ : π.Ok) :
     ∀ (fuel : Nat) (st : C11L.FragSt) (s : HState) (evs : List CEvent), s.c.running = true → C11L.fragCond st = true →
       st.range < 2 ^ fuel →
       ∃ s' evs', Reaches π (fragHead s evs st.proposed st.range st.max 0)
@@ -1273,7 +1376,7 @@ theorem reach_fragLoop (π : HsPath) (hπ : π.Ok) (h3 : ∀ n buf, π.frag n = 
     omega
   | succ fuel ih =>
     intro st s evs hrun hc hr
-    obtain ⟨s1, e1, h1, k1⟩ := reach_fragInner π hπ h3 st.proposed st.range st.max s evs hrun
+    obtain ⟨s1, e1, h1, k1⟩ := reach_fragInner π hπ st.proposed st.range st.max s evs hrun
     have r1 : s1.c.running = true := by rw [k1.running]; exact hrun
     rw [fragHead_three s1 e1 _ _ _ r1] at h1
     have hpm : C11L.probeMax (fun n => fragRes n (π.frag n)) st = probeMaxOf π st.proposed st.max := by
@@ -1318,7 +1421,7 @@ def EndsWith (π : HsPath) (start : HOut) (s : HState) (R : C11L.HsResult) : Pro
     (∀ f, R.setFrag = some f → ∃ (sm : HState) (em : List CEvent) (fi : Int), Reaches π start (setFragEnter sm em fi) ∧ fi.toNat = f)
 
 /-- from `if (autodetect_frag_size)` on -/
-theorem reach_afterLazy (π : HsPath) (hπ : π.Ok) (h3 : ∀ n buf, π.frag n = some buf → 3 ≤ buf.length)
+theorem reach_afterLazy (π : HsPath) (hπ : π.Ok)
     (s : HState) (evs : List CEvent) (hrun : s.c.running = true) :
     ∃ o : HOut, Reaches π (afterLazy s evs) o ∧ o.1.pos = none ∧ Keep s o.1 ∧
       (if s.args.autoFrag then
@@ -1341,7 +1444,7 @@ theorem reach_afterLazy (π : HsPath) (hπ : π.Ok) (h3 : ∀ n buf, π.frag n =
   · simp only [ha, if_true]
     have hE : fragEnter s evs = fragHead { s with inb := [] } evs 768 768 0 0 := by simp [fragEnter, hrun]
     rw [hE]
-    obtain ⟨s3, e3, h3', k3⟩ := reach_fragLoop π hπ h3 10 C11L.fragInit { s with inb := [] } evs hrun (by decide) (by decide)
+    obtain ⟨s3, e3, h3', k3⟩ := reach_fragLoop π hπ 10 C11L.fragInit { s with inb := [] } evs hrun (by decide) (by decide)
     have r3 : s3.c.running = true := by rw [k3.running]; exact hrun
     have hM : (C11L.fragLoop (fun n => fragRes n (π.frag n)) 10 C11L.fragInit).max = (C11L.fragSearch (fun n => fragRes n (π.frag n))).max := rfl
     rw [hM] at h3'
@@ -1388,7 +1491,7 @@ theorem tail_rc (cfg : C11L.HsCfg) (P : C11L.HsProbes) :
 with the return value, EDNS0 flag, upstream codec, downstream codec and lazy mode that the abstract negotiation
 `C11L.clientHandshakeTail` computes from the path's probe outcomes, and it asks `handshake_set_fragsize` for the abstract
 fragment size -/
-theorem hs_refines (π : HsPath) (hπ : π.Ok) (h3 : ∀ n buf, π.frag n = some buf → 3 ≤ buf.length)
+theorem hs_refines (π : HsPath) (hπ : π.Ok)
     (s : HState) (evs : List CEvent) (hrun : s.c.running = true) (henc : s.c.dataenc = .b32) :
     ∃ o : HOut, Reaches π (dnsBranch s evs) o ∧ o.1.pos = none ∧
       o.2.2 = .finished (C11L.clientHandshakeTail (cfgOf s) π.probes).rc ∧
@@ -1420,7 +1523,7 @@ theorem hs_refines (π : HsPath) (hπ : π.Ok) (h3 : ∀ n buf, π.frag n = some
     simp only [hnr]
     by_cases hl : s6.c.lazymode = true
     · simp only [hl, if_true]
-      obtain ⟨s7, e7, h7, n7, a7⟩ := reach_lazy π hπ { s6 with inb := [] } e6 r6 rfl
+      obtain ⟨s7, e7, h7, n7, a7⟩ := reach_lazy π hπ { s6 with inb := [] } e6 r6
       refine ⟨s7, e7, h7, ?_, a7, ?_, ?_, ?_, ?_⟩
       · have := congrArg Neg.running n7; simpa [neg, r6] using this
       · have := congrArg Neg.lazymode n7; simpa [neg] using this
@@ -1431,7 +1534,7 @@ theorem hs_refines (π : HsPath) (hπ : π.Ok) (h3 : ∀ n buf, π.frag n = some
       simp only [hl', Bool.false_eq_true, if_false]
       exact ⟨s6, e6, Reaches.refl _, r6, rfl, hl', rfl, rfl, rfl⟩
   -- fragment size
-  obtain ⟨o, ho, hp, hk, hrc⟩ := reach_afterLazy π hπ h3 s7 e7 r7
+  obtain ⟨o, ho, hp, hk, hrc⟩ := reach_afterLazy π hπ s7 e7 r7
   have tf := tail_fields (cfgOf s) π.probes
   have trc := tail_rc (cfgOf s) π.probes
   have hauto : s7.args.autoFrag = (cfgOf s).autoFrag := by rw [a7, k6.2, a5]; rfl
